@@ -317,6 +317,7 @@ type c10Cli struct {
 	mu     sync.Mutex
 	buf    []byte
 	closed bool // EOF / reset seen
+	reset  bool // the read ended with ECONNRESET (an RST), not with EOF (a FIN)
 	rdone  chan struct{}
 }
 
@@ -336,6 +337,7 @@ func c10Dial(addr string) (*c10Cli, error) {
 			cc.buf = append(cc.buf, b[:n]...)
 			if err != nil {
 				cc.closed = true
+				cc.reset = errors.Is(err, syscall.ECONNRESET)
 				cc.mu.Unlock()
 				return
 			}
@@ -344,6 +346,8 @@ func c10Dial(addr string) (*c10Cli, error) {
 	}()
 	return cc, nil
 }
+
+func (cc *c10Cli) wasReset() bool { cc.mu.Lock(); defer cc.mu.Unlock(); return cc.reset }
 
 func (cc *c10Cli) snapshot() ([]byte, bool) {
 	cc.mu.Lock()
@@ -489,10 +493,10 @@ func (cc *c10Cli) patient(kind string, pred func([]byte) bool) (data []byte, clo
 	return
 }
 
-// What is replayed, and what is not.  A missing or wrong answer is NEVER replayed: the well-behaved session, the accept
+// What is replayed, and what is not.  (RST = the client's read ended with ECONNRESET; a FIN/EOF is never replayed.)  A missing or wrong answer is NEVER replayed: the well-behaved session, the accept
 // check and the probes wait up to 16 s on their connection and what they then see is final.  Only two things make an
-// attempt "suspect" and have the script played again on fresh connections (at most 3 attempts): a connection that was
-// RESET without the bytes sent explaining it (ephemeral-port reuse on a machine doing thousands of connects), and a
+// attempt "suspect" and have the script played again on fresh connections (at most 3 attempts): a connection that got
+// an RST without the bytes sent explaining it (ephemeral-port reuse on a machine doing thousands of connects), and a
 // failed dial.  Every replay is counted (C10Transients; more than 10 in a run is itself a violation).
 // A crash is never forgiven: an attempt during which the process died is final (suspect is cleared when the child is
 // not alive).  Every replay is counted (C10Transients) and reported in the run's statistics.
@@ -569,8 +573,8 @@ func c10ContainOnce(kind string, a []string) (result string, suspect bool) {
 			d, closedG, ok := c.patient(kind, func(b []byte) bool { return len(b) > gSeen && c10WholeFrames(b[gSeen:], 1) })
 			if !ok {
 				g = append(g, "none")
-				if closedG {
-					suspect = true // the good connection was reset
+				if closedG && c.wasReset() {
+					suspect = true // the good connection was RESET (a FIN - the server ended it - is final)
 				}
 			} else {
 				// a little patience for further frames of the same answer (there are none in practice)
@@ -623,7 +627,7 @@ func c10ContainOnce(kind string, a []string) (result string, suspect bool) {
 			d, closedG, ok := c.patient(kind, func(b []byte) bool { return len(b) > gSeen && c10WholeFrames(b[gSeen:], bgSent) })
 			if !ok {
 				g = append(g, "none")
-				if closedG {
+				if closedG && c.wasReset() {
 					suspect = true
 				}
 			} else {
@@ -652,13 +656,18 @@ func c10ContainOnce(kind string, a []string) (result string, suspect bool) {
 			path, content, _ := strings.Cut(hx, ":")
 			want := Unhx(content)
 			full := filepath.Join(child.Cwd, string(Unhx(path)))
-			xcheck = "0"
-			for t0 := time.Now(); time.Since(t0) < 3*time.Second; time.Sleep(2 * time.Millisecond) {
+			hit := "0"
+			wait := 3 * time.Second
+			if xcheck != "" {
+				wait = 50 * time.Millisecond // a later X judges the same final state
+			}
+			for t0 := time.Now(); time.Since(t0) < wait; time.Sleep(2 * time.Millisecond) {
 				if b, err := os.ReadFile(full); err == nil && bytes.Equal(b, want) {
-					xcheck = "1"
+					hit = "1"
 					break
 				}
 			}
+			xcheck += hit
 		case head == "W":
 			time.Sleep(60 * time.Millisecond) // let the server finish the teardown of a connection just closed
 		case head == "A":
@@ -673,7 +682,7 @@ func c10ContainOnce(kind string, a []string) (result string, suspect bool) {
 				acc = Hx(d)
 			} else {
 				acc = "none"
-				if closedA {
+				if closedA && c.wasReset() {
 					suspect = true
 				}
 			}
@@ -725,8 +734,8 @@ func c10ContainOnce(kind string, a []string) (result string, suspect bool) {
 				switch {
 				case closed:
 					status[k] = "closed"
-					if !closing && head[0] != 'Q' {
-						suspect = true // a reset not explained by the bytes sent (or a refused key): believed only when it persists
+					if !closing && head[0] != 'Q' && c.wasReset() {
+						suspect = true // an RST not explained by the bytes sent: believed only when it persists (a FIN is final)
 					}
 				case ok:
 					status[k] = "open:" + c10Replies808(d)
@@ -750,7 +759,9 @@ func c10ContainOnce(kind string, a []string) (result string, suspect bool) {
 				switch {
 				case closed:
 					status[k] = "closed:" + Hx(d)
-					suspect = true // the attachment server never closes a connection
+					if c.wasReset() {
+						suspect = true // the attachment server never closes a connection; an RST is replayed, a FIN is final
+					}
 				case ok:
 					status[k] = "open:" + Hx(d)
 				default:
